@@ -37,7 +37,17 @@ def rcp(dst, expect):
     return o
 
 
-OBLIGATIONS = [ob(k) for k in QUICK_KINDS] + [ob(k, d) for k in KINDS if k not in QUICK_KINDS and k != "IMUL_RCP" for d in range(8)] + \
+def cfround(src):
+    o = ob("CFROUND", 0)
+    o["name"] = "jit_CFROUND_src%d" % src
+    o["defines"] = o["defines"] + ["SRC_ONLY=%d" % src]
+    o["mem_gb"] = 16
+    return o
+
+
+# CFROUND has no destination register: one obligation over all 8 sources (needs more memory than the default 8 GB)
+OBLIGATIONS = [ob(k) for k in QUICK_KINDS] + [ob(k, d) for k in KINDS if k not in QUICK_KINDS and k not in ("IMUL_RCP", "CFROUND") for d in range(8)] + \
+              [cfround(s) for s in range(8)] + \
               [rcp(d, e) for d in range(8) for e in (0, 1)]
 # one IMUL_RCP case pair also in the quick tier (the no-op rule is property C18's second half)
 for o in OBLIGATIONS:
